@@ -254,6 +254,52 @@ func c20RefGraphs() []c20input {
 			out = append(out, c20input{origin: "refgraph+fs(abs) " + k.coll + " -> " + t, data: doc, files: fs, root: "/w/root.json"})
 			fs2 := map[string]string{"other.json": fs["/w/other.json"], "root.json": string(doc)}
 			out = append(out, c20input{origin: "refgraph+fs(rel) " + k.coll + " -> " + t, data: doc, files: fs2, root: "root.json"})
+			// the same files, the root handed over as bytes without a location of its own
+			out = append(out, c20input{origin: "refgraph+fs(no location) " + k.coll + " -> " + t, data: doc, files: fs2})
+		}
+	}
+	// documents reached through other documents that fail their own reference resolution, and whole-file references from a
+	// root without a location (InternalizeRefs has to name what they point at)
+	for _, k := range kinds {
+		kindName := map[string]string{"schemas": "schema", "parameters": "parameter", "responses": "response", "headers": "header", "requestBodies": "requestBody", "examples": "example", "links": "link", "callbacks": "callback", "securitySchemes": "securityScheme"}[k.coll]
+		whole := targetObject(kindName, "WHOLE")
+		for _, bVariant := range []string{"target-dangling", "sibling-dangling", "fine"} {
+			bComps := gen.S{"X": targetObject(kindName, "BX")}
+			switch bVariant {
+			case "target-dangling":
+				bComps["X"] = gen.S{"$ref": "#/components/" + k.coll + "/Missing"}
+			case "sibling-dangling":
+				bComps["Y"] = gen.S{"$ref": "#/components/" + k.coll + "/Missing"}
+			}
+			var aDoc any = gen.S{"$ref": "b.json#/components/" + k.coll + "/X"}
+			if k.coll == "schemas" {
+				aDoc = gen.S{"type": "object", "properties": gen.S{"p": gen.S{"$ref": "b.json#/components/schemas/X"}, "q": gen.S{"$ref": "a.json"}}}
+			}
+			if k.coll == "responses" {
+				aDoc = gen.S{"description": "d", "content": gen.S{"application/json": gen.S{"schema": gen.S{"$ref": "b.json#/components/schemas/S"}}}}
+				bComps = gen.S{"X": whole}
+			}
+			aJSON, _ := json.Marshal(aDoc)
+			bDoc := gen.S{k.coll: bComps}
+			if k.coll == "responses" {
+				bDoc["schemas"] = gen.S{"S": gen.S{"$ref": "#/components/schemas/Missing"}}
+				if bVariant == "fine" {
+					bDoc["schemas"] = gen.S{"S": gen.S{"type": "string"}}
+				}
+			}
+			root := mk(gen.S{k.coll: gen.S{"A": gen.S{"$ref": "a.json"}, "W": gen.S{"$ref": "whole.json"}, "B": gen.S{"$ref": "b.json#/components/" + k.coll + "/X"}}}, nil)
+			wJSON, _ := json.Marshal(whole)
+			for _, loc := range []string{"root.json", "/abs/dir/root.json", ""} {
+				dir := ""
+				if strings.HasPrefix(loc, "/") {
+					dir = "/abs/dir/"
+				}
+				fs := map[string]string{dir + "a.json": string(aJSON), dir + "b.json": string(mk(bDoc, nil)), dir + "whole.json": string(wJSON)}
+				if loc != "" {
+					fs[loc] = string(root)
+				}
+				out = append(out, c20input{origin: fmt.Sprintf("nested-documents %s b=%s root-location=%q", k.coll, bVariant, loc), data: root, files: fs, root: loc})
+			}
 		}
 	}
 	// references from every position in paths
